@@ -234,6 +234,22 @@ m('deltawriter-flush-shortcut', 'C05', 'FLUSH-FORWARD', 'src/filter/delta.rs', "
         }
         self.inner.flush()""", '<DeltaWriter as Write>::flush:sink-flushed-on-every-Ok-path')
 
+# ---- SIZE-FIELD-TWIN
+m('lzma2-compressed-size-bytes-swapped', 'C01', 'SIZE-FIELD-TWIN', 'src/enc/lzma2_writer.rs',
+  """        chunk_header[3] = ((compressed_size - 1) >> 8) as u8;
+        chunk_header[4] = (compressed_size - 1) as u8;""", """        chunk_header[4] = ((compressed_size - 1) >> 8) as u8;
+        chunk_header[3] = (compressed_size - 1) as u8;""", 'write_lzma:compressed_size:big-endian-minus-one')
+m('lzma2-control-high-bits-shift', 'C01', 'SIZE-FIELD-TWIN', 'src/enc/lzma2_writer.rs',
+  'control |= (uncompressed_size - 1) >> 16;', 'control |= (uncompressed_size - 1) >> 17;', 'write_lzma:uncompressed_size:high-bits-in-control')
+m('lzma2-uncompressed-chunk-size-not-minus-one', 'C01', 'SIZE-FIELD-TWIN', 'src/enc/lzma2_writer.rs',
+  'chunk_header[1] = ((chunk_size - 1) >> 8) as u8;', 'chunk_header[1] = (chunk_size >> 8) as u8;', 'write_uncompressed:header[1]:not-a-size-byte')
+m('lzma2mt-cutter-wrong-offset', 'C08', 'SIZE-FIELD-TWIN', 'src/lzma2_reader_mt.rs',
+  'u16::from_be_bytes([header_buf[2], header_buf[3]]) as usize + 1', 'u16::from_be_bytes([header_buf[0], header_buf[1]]) as usize + 1', 'read_and_dispatch_chunk:compressed-size-offset')
+m('lzma2mt-cutter-no-plus-one', 'C08', 'SIZE-FIELD-TWIN', 'src/lzma2_reader_mt.rs',
+  'u16::from_be_bytes(size_buf) as usize + 1', 'u16::from_be_bytes(size_buf) as usize', 'read_and_dispatch_chunk:payload-length-plus-one')
+m('lzma2-reader-control-mask', 'C01', 'SIZE-FIELD-TWIN', 'src/lzma2_reader.rs',
+  '((control & 0x1F) as usize) << 16', '((control & 0x0F) as usize) << 16', 'decode_chunk_header:control-bits')
+
 M = [x for x in M if x['old'] is not None]
 
 
